@@ -939,6 +939,12 @@ def oracle_C11(ctx, cases, answers):
                 k = next((j for j, (x, y) in enumerate(zip(got, want.split(" | "))) if x != y), min(len(got), len(exp)))
                 v.append((i, "step %d of %s: the collection answers %s, a case-insensitive sorted map gives %s" % (
                     k, c["req"][:150], (got[k] if k < len(got) else "<nothing>")[:120], (want.split(" | ")[k] if k < len(want.split(" | ")) else "<nothing>")[:120])))
+        elif c.get("stream") == "dup-parse":
+            # the qualifiers of a PURL string are a construction from pairs: a key repeated (in any letter case) with two
+            # non-empty values is refused, whichever key it is
+            p_ = fields(a).get("p", a)
+            if not p_.startswith("ERR:") or "InvalidQualifier" not in p_:
+                v.append((i, "%r repeats a qualifier key with two non-empty values and is not refused: %s" % (c["s"], p_[:100])))
         elif c["req"].startswith("qcmp "):
             f = fields(a)
             same = c.get("same")
